@@ -147,6 +147,7 @@ type Exec struct {
 	visit      func(post sigKey, pre int) bool // called after every decision at or beyond the end of the prefix; true = state already expanded with at least this budget: stop
 	clockVer   uint64
 	eager      []*Task
+	flatMode   bool // deviation = any choice other than the default one
 	delayMode  bool // deviation = delay w.r.t. the deterministic default scheduler (instead of preemption)
 	keyRunning bool // bounded search: the running task is part of the state (it decides what is a preemption)
 	aborted    bool
@@ -711,7 +712,13 @@ func (e *Exec) run(harness func(*H)) {
 			p.OptTasks = make([]int, len(trs))
 			skipped := 0
 			for i, tr := range trs {
-				if e.delayMode {
+				if e.flatMode {
+					// deviation bounding: the first option is the default schedule, every other choice
+					// (whatever its position) is one deviation; environment tasks are free
+					if !tr.t.Free && i > 0 {
+						p.Costs[i] = 1
+					}
+				} else if e.delayMode {
 					// delay bounding: the default scheduler takes the first option of the canonical
 					// order; option i costs the number of non-environment options it skips
 					if !tr.t.Free {
